@@ -113,7 +113,7 @@ func c12GenOne(r *world.Rng, tier string, n int) *C12Sc {
 		sc.Dense = r.Pick(0, 1, 10, 200, 3000)
 	}
 	if sc.MemKind != "map" {
-		sc.Dense = r.Pick(0, 10, 40, 80, 100, 100, 101, 102, 103, 104) // 100: nothing but prefix bytes; 101..104: one and the same prefix everywhere (DD, FD, DD/FD mixed, ED)
+		sc.Dense = r.Pick(0, 10, 40, 80, 100, 100, 101, 102, 103, 104, 105, 106) // 100: nothing but prefix bytes; 101..104: one and the same prefix everywhere (DD, FD, DD/FD mixed, ED)
 	}
 	switch r.Intn(3) {
 	case 0:
@@ -304,6 +304,15 @@ func c12Build(sc *C12Sc, env *Env) *c12World {
 				continue
 			case 104:
 				b[i] = 0xed
+				continue
+			case 105, 106:
+				// a sled of two-byte codes, the second byte counting up: hundreds of DIFFERENT unsupported
+				// op-codes in a row on one CPU (ED xx / DD xx)
+				if i%2 == 0 {
+					b[i] = map[int]uint8{105: 0xed, 106: 0xdd}[sc.Dense]
+				} else {
+					b[i] = uint8(i / 2)
+				}
 				continue
 			}
 			if sc.Dense >= 100 {
@@ -639,20 +648,27 @@ func c12Exec(sc *C12Sc, env *Env) (res *Violation) {
 		}
 		checkNext = false
 		if !hadReq && strings.Contains(env.LogBuf.String(), "invalid") {
-			// unsupported opcode: k sequential fetches, nothing else, PC advanced by k
+			// "Unsupported opcodes are consumed and execution continues with the next byte" - in this Step or
+			// the next, the statement does not say: an implementation may warn about an index prefix it
+			// ignores and execute what follows at once, data accesses, jumps and all. A verdict is possible
+			// only where the Step did nothing but fetch sequentially and left PC inside what it fetched:
+			// then it consumed at least one byte, and the next Step starts at the new PC.
+			fetchOnly := len(log) > 0
 			for i, a := range log {
 				if a.Kind != world.MR || a.Addr != pcBefore+uint16(i) {
-					return viol("unsupported-consumed", "Step at PC=%04x warned %q; its history must be sequential fetches only: %s", pcBefore, strings.TrimSpace(env.LogBuf.String()), world.FmtLog(log))
+					fetchOnly = false
 				}
 			}
-			// consumed: PC moved on by at least one and at most the number of fetched bytes (an implementation
-			// may look at a byte in order to find the sequence unsupported and still consume only the prefix)
-			if adv := cpu.PC - pcBefore; len(log) == 0 || adv == 0 || int(adv) > len(log) {
-				return viol("unsupported-consumed", "Step at PC=%04x warned %q, fetched %d bytes but PC=%04x", pcBefore, strings.TrimSpace(env.LogBuf.String()), len(log), cpu.PC)
+			adv := cpu.PC - pcBefore
+			if fetchOnly && adv == 0 && len(log) <= 2 && log[len(log)-1].Val != 0xe9 && log[len(log)-1].Val != 0x76 {
+				// (E9: JP (HL)/(IX)/(IY) may legitimately land on itself; 76: a HALT stays where it is)
+				return viol("unsupported-consumed", "Step at PC=%04x warned %q, fetched %s and left PC where it was: nothing was consumed", pcBefore, strings.TrimSpace(env.LogBuf.String()), world.FmtLog(log))
 			}
-			pendingNext = cpu.PC
-			checkNext = true
-			env.Fire("unsupported-opcode-consumed")
+			if fetchOnly && adv >= 1 && int(adv) <= len(log) {
+				pendingNext = cpu.PC
+				checkNext = true
+				env.Fire("unsupported-opcode-consumed")
+			}
 		}
 	}
 	env.Ticks += w.tick
